@@ -233,5 +233,15 @@ UNIT = {
          'replace': 'let ghost e1 = lexer.pos as int; let __w = lexer.back()?; '
                     'proof { let s = token_start(buf, p0).unwrap(); lemma_back_to_token(buf, p0, s, lexer.pos as int, __w.slice@.len() as int); }'},
      ]},
- },
+ }, 'kani': {
+   'modules': [{'file': P, 'code': 'kani_xrefread.rs'}],
+   'harnesses': [
+     {'name': 'chunks_exact2_pairs_in_order', 'fn': 'parse_xref_stream_and_trailer', 'file': P, 'props': ['C02'], 'kind': 'bounded',
+      'bound': '/Index arrays <= 7 elements, unwind 5', 'covers': True,
+      'contract': 'L0 of hoist_chunks_exact2: index.chunks_exact(2) yields (index[2k], index[2k+1]) for k = 0..len/2 in order, a last odd element is left out'},
+     {'name': 'str_parse_u32_is_plus_digits', 'fn': 'parse_xref_table_and_trailer', 'file': P, 'props': ['C02'], 'kind': 'bounded',
+      'bound': 'tokens <= 3 bytes (all byte values), unwind 5', 'covers': True,
+      'contract': 'model of Substr::to::<u32> (from_utf8 + str::parse): Some(v) iff token = [+]? digit+ with value v, else None'},
+   ],
+   'jobs': 2, 'timeout': 900 },
 }
